@@ -32,7 +32,7 @@ func (l *Lexer) NextToken() token.Token {
 	var tok token.Token
 
 	// l.skipWhitespace()
-	if l.ch == 0 {
+	if l.atEOF() {
 		tok.Literal = ""
 		tok.Type = token.EOF
 		tok.LineNumber = l.curLine
@@ -178,7 +178,7 @@ func (l *Lexer) nextInsideToken() token.Token {
 		tok.Type = token.B_STRING
 		tok.Literal = l.readBString()
 	case '#':
-		for l.ch != 0 {
+		for !l.atEOF() {
 			l.readChar()
 			if l.ch == '\n' || l.ch == '\r' {
 				break
@@ -191,8 +191,12 @@ func (l *Lexer) nextInsideToken() token.Token {
 	case ']':
 		tok = l.newToken(token.RBRACKET)
 	case 0:
-		tok.Literal = ""
-		tok.Type = token.EOF
+		if l.atEOF() {
+			tok.Literal = ""
+			tok.Type = token.EOF
+		} else {
+			tok = l.newToken(token.ILLEGAL)
+		}
 	default:
 		if isLetter(l.ch) {
 			tok.Literal = l.readIdentifier()
@@ -243,6 +247,11 @@ func (l *Lexer) readChar() {
 	l.readPosition++
 }
 
+// atEOF reports whether every byte of the input has been consumed (a NUL byte in the input is data)
+func (l *Lexer) atEOF() bool {
+	return l.position >= len(l.input)
+}
+
 func (l *Lexer) peekChar() byte {
 	if l.readPosition >= len(l.input) {
 		return 0
@@ -284,7 +293,7 @@ func (l *Lexer) readNumber() string {
 
 func (l *Lexer) readString() string {
 	position := l.position + 1
-	for l.ch != 0 {
+	for !l.atEOF() {
 		l.readChar()
 		// check for quote escapes
 		if l.ch == '\\' && l.peekChar() == '"' {
@@ -301,7 +310,7 @@ func (l *Lexer) readString() string {
 
 func (l *Lexer) readBString() string {
 	position := l.position + 1
-	for l.ch != 0 {
+	for !l.atEOF() {
 		l.readChar()
 		if l.ch == '`' {
 			break
@@ -314,7 +323,7 @@ func (l *Lexer) readBString() string {
 func (l *Lexer) readHTML() string {
 	position := l.position
 
-	for l.ch != 0 {
+	for !l.atEOF() {
 		if l.ch == '\\' && l.prevChar() == '\\' && l.peekChar() == '<' && l.peekChar2() == '%' {
 			// escape escaping
 			l.readChar()
